@@ -7,7 +7,7 @@ VKEYS = ['python_version', 'python_full_version', 'implementation_version']
 SKEYS = markers.STRING_KEYS
 DEPR = {'os_name': 'os.name', 'sys_platform': 'sys.platform', 'platform_version': 'platform.version', 'platform_machine': 'platform.machine',
         'platform_python_implementation': ['platform.python_implementation', 'python_implementation']}
-VLITS = ['3', '3.8', '3.8.0', '3.8.1', '3.9', '3.10', '3.0', '4', '2.7', '3.7.2', '3.8.0.0', '3.8.2', '0']
+VLITS = ['3', '3.8', '3.8.0', '3.8.1', '3.9', '3.10', '3.0', '4', '2.7', '3.7.2', '3.8.0.0', '3.8.2', '0', '3.0.1', '3.10.0.2', '2.0.7']
 VDECO = ['3.8a1', '3.8.post1', '3.8.dev1', '1!3.8', '3.9.0rc1']
 SVALS = ['a', 'b', 'ab', '', 'linux', 'posix', 'nt', 'é', "it's", 'say "hi"', 'x86_64', 'Linux', 'a b']
 OPMAP = {'==': 'eq', '!=': 'ne', '<': 'lt', '<=': 'le', '>': 'gt', '>=': 'ge', '~=': 'tilde'}
@@ -245,6 +245,10 @@ def run(ctx):
         for o1 in ('<', '<=', '>', '>=', '==', '!='):
             for o2 in ('<', '<=', '>', '>=', '==', '!='):
                 battery.append((ctx.rng.choice(['and', 'or']), (kind, key, o1, val), (kind, key, o2, val)))
+    for lit in ('3.0.1', '3.10.0.2', '2.0.7'):
+        for o1 in ('<', '<=', '>', '>=', '==', '!=', '~='):
+            battery.append(('ver', 'python_full_version', o1, lit))
+        battery.append(('verin', 'python_full_version', [lit, '3.8'], False))
     for key in ('python_full_version', 'implementation_version'):
         for lits in (['3.9.0rc1', '3.10.2'], ['3.8.5', '3.9.0b2'], ['3.11.4.post1'], ['1!3.8', '3.8.dev1']):
             for neg in (False, True):
